@@ -118,7 +118,7 @@ constexpr flog::level level_values[n_levels] = {flog::level::verbose, flog::leve
                                                 flog::level::warning, flog::level::error, flog::level::fatal};
 char const *const level_names[n_levels + 1] = {"verbose", "debug", "info", "warning", "error", "fatal", "nothing"};
 constexpr int pool = 4;
-char const *const names[pool] = {"n0", "n1", "n2", "n3"};
+char const *const names[pool] = {"n0", "n1", "n12", "n3"}; // n1 is a proper prefix of its sibling n12
 // name choice is skewed so that threads meet below the same parents
 constexpr int name_table[8] = {0, 0, 0, 1, 1, 1, 2, 3};
 
